@@ -1,0 +1,15 @@
+//go:build verif
+
+package reader
+
+// VerifYield, when set by a simulation harness, is called at a few lock-free
+// points of the pack pipeline and of the drop barrier so that a scheduler can
+// order concurrent goroutines deterministically. It is never set in production
+// builds (this file is only compiled with -tags verif).
+var VerifYield func(point string, channel string, collectionID int64)
+
+func verifYield(point string, channel string, collectionID int64) {
+	if f := VerifYield; f != nil {
+		f(point, channel, collectionID)
+	}
+}
